@@ -4,6 +4,7 @@ mod inst;
 mod key;
 mod ord;
 mod out;
+mod seg;
 
 use i_tree::key::list::KeyExpList;
 use i_tree::key::tree::KeyExpTree;
@@ -85,6 +86,7 @@ fn key_main<C: key::KeyColl>(a: &Args, tr: &mut out::Trace) {
             let text = std::fs::read_to_string(a.str("file", "")).expect("replay file");
             key::run_replay::<C>(tr, &text, a.num("keys", 8) as i32);
         }
+        "sizes" => key::run_sizes::<C>(tr, a.num("max", 100000) as u64, a.num("seed", 1) as u64),
         "paths" | "faults" => {
             let text = std::fs::read_to_string(a.str("paths", "")).expect("paths file");
             let paths = key::parse_paths(&text);
@@ -136,6 +138,43 @@ fn ord_main<C: ord::OrdColl>(a: &Args, tr: &mut out::Trace) {
     }
 }
 
+fn seg_main<R: seg::Coord>(a: &Args, tr: &mut out::Trace)
+where
+    i64: From<R>,
+{
+    match a.driver.as_str() {
+        "random" | "faults" => seg::run_random::<R>(
+            tr,
+            a.num("lo", 0),
+            a.num("hi", 31),
+            a.num("seed", 1) as u64,
+            a.num("steps", 2000) as u64,
+            a.num("seglen", 60) as u64,
+            a.driver == "faults" || a.num("inject", 0) != 0,
+        ),
+        "script" => {
+            let text = std::fs::read_to_string(a.str("file", "")).expect("script file");
+            seg::run_script::<R>(tr, &text);
+        }
+        "layout" => {
+            let doms: Vec<(i64, i64)> = a
+                .str("domains", "")
+                .split(',')
+                .filter(|s| !s.is_empty())
+                .map(|s| {
+                    let (l, h) = s.split_once(':').expect("lo:hi");
+                    (l.parse().expect("lo"), h.parse().expect("hi"))
+                })
+                .collect();
+            seg::run_layout::<R>(tr, &doms);
+        }
+        d => {
+            eprintln!("unknown driver {d}");
+            std::process::exit(2);
+        }
+    }
+}
+
 fn main() {
     let a = parse_args();
     // injected and internal panics are data, not noise on stderr
@@ -152,6 +191,10 @@ fn main() {
         "settree-str" => ord_main::<SetTree<OKey, PV<String>>>(&a, &mut tr),
         "setlist-i32" => ord_main::<SetList<PV<i32>>>(&a, &mut tr),
         "setlist-str" => ord_main::<SetList<PV<String>>>(&a, &mut tr),
+        "seg-i32" if a.driver == "matrix" => seg::run_matrix(&mut tr, a.num("from", 0), a.num("to", 528)),
+        "seg-i32" => seg_main::<i32>(&a, &mut tr),
+        "seg-u32" => seg_main::<u32>(&a, &mut tr),
+        "seg-i64" => seg_main::<i64>(&a, &mut tr),
         c => {
             eprintln!("unknown collection {c}");
             std::process::exit(2);
